@@ -59,12 +59,23 @@ pub open spec fn extends(old_l: Seq<Event>, l: Seq<Event>) -> bool {
 
 STUBS = r"""
 // ---- callees by contract (discharged in unit parser_core / decoder / tracker) ----------------------
-pub struct TypeTracker { pub ghost_state: Ghost<int> }
+// the tracker as seen by the parse loop: the sequence of instructions it has been shown (C10: literal widths
+// depend on exactly the instructions already delivered in THIS parse)
+pub struct TypeTracker { pub seen: Ghost<Seq<dr::Instruction>> }
 impl TypeTracker {
+    pub open spec fn tracked(&self) -> Seq<dr::Instruction> { self.seen@ }
     #[verifier::external_body]
-    pub fn new() -> TypeTracker { unimplemented!() }
+    pub fn new() -> (r: TypeTracker) ensures r.tracked().len() == 0 { unimplemented!() }
     #[verifier::external_body]
-    pub fn track(&mut self, inst: &dr::Instruction) { unimplemented!() }
+    pub fn track(&mut self, inst: &dr::Instruction) ensures final(self).tracked() == old(self).tracked().push(*inst) { unimplemented!() }
+}
+pub open spec fn inst_of(e: Event) -> dr::Instruction { match e { Event::Inst(i, _) => i, _ => arbitrary() } }
+// every instruction handed to the consumer was shown to the tracker first, in the same order, and nothing else was
+pub open spec fn tracked_all(t0: Seq<dr::Instruction>, t: Seq<dr::Instruction>, l: Seq<Event>, n: int) -> bool {
+    &&& t0.len() <= t.len() && (forall|i: int| 0 <= i < t0.len() ==> #[trigger] t[i] == t0[i])
+    &&& (forall|i: int| n + 2 <= i < l.len() && (#[trigger] l[i] is Inst) ==> (t0.len() + (i - n - 2) < t.len() && t[t0.len() + (i - n - 2)] == inst_of(l[i])))
+    &&& t.len() - t0.len() <= l.len() - n - 2 || l.len() < n + 2
+    &&& (l.len() >= n + 2 ==> (t.len() - t0.len() == l.len() - n - 2 || (l.last() is Finalize && t.len() - t0.len() == l.len() - n - 3)))
 }
 pub mod decoder {
     use vstd::prelude::*;
@@ -78,14 +89,14 @@ impl<'c, 'd> Parser<'c, 'd> {
     // frame + progress part of parse_header's contract (unit parser_core proves it on the real body)
     #[verifier::external_body]
     pub fn parse_header(&mut self) -> (r: Result<dr::ModuleHeader>)
-        ensures final(self).consumer.log() == old(self).consumer.log(),
+        ensures final(self).consumer.log() == old(self).consumer.log(), final(self).type_tracker == old(self).type_tracker,
             final(self).decoder.bytes@ == old(self).decoder.bytes@,
             final(self).decoder.offset <= final(self).decoder.bytes@.len() || old(self).decoder.offset > old(self).decoder.bytes@.len(),
             r matches Err(s) ==> !is_consumer_state(s),
     { unimplemented!() }
     #[verifier::external_body]
     pub fn parse_inst(&mut self) -> (r: Result<dr::Instruction>)
-        ensures final(self).consumer.log() == old(self).consumer.log(),
+        ensures final(self).consumer.log() == old(self).consumer.log(), final(self).type_tracker == old(self).type_tracker,
             final(self).decoder.bytes@ == old(self).decoder.bytes@,
             old(self).decoder.offset <= old(self).decoder.bytes@.len() ==> final(self).decoder.offset <= final(self).decoder.bytes@.len(),
             // an instruction was parsed => at least its first word was consumed
@@ -161,7 +172,9 @@ def build(tier="quick", must_fail=False):
     g.raw("impl<'c, 'd> Parser<'c, 'd> {")
     pn = Piece(src.find("fn", "Parser::new"))
     pn.name_result("r")
-    pn.add_contract("""    ensures r.consumer.log() == old(consumer).log(), r.inst_index == 0, r.decoder.offset == 0, r.decoder.bytes@ == binary@,""")
+    pn.add_contract("""    ensures r.consumer.log() == old(consumer).log(), r.inst_index == 0, r.decoder.offset == 0, r.decoder.bytes@ == binary@,
+        // C10: a fresh tracker per parser — nothing carries over from earlier parses
+        r.type_tracker.tracked().len() == 0,""")
     g.emit(pn, name="binary::parser::Parser::new")
     pp = Piece(src.find("fn", "Parser::parse"))
     pp.name_result("r")
@@ -170,7 +183,11 @@ def build(tier="quick", must_fail=False):
     ensures
         // the callbacks made by this parse: a suffix appended to the consumer's log, in protocol order
         extends(old(self).consumer.log(), final(self).consumer.log()),
-        protocol(final(self).consumer.log(), old(self).consumer.log().len() as int, r),""")
+        protocol(final(self).consumer.log(), old(self).consumer.log().len() as int, r),
+        // C10/C03: the tracker was shown every delivered instruction (and only those), before its delivery
+        (final(self).consumer.log().len() >= old(self).consumer.log().len() + 2) ==>
+            tracked_all(old(self).type_tracker.tracked(), final(self).type_tracker.tracked(), final(self).consumer.log(), old(self).consumer.log().len() as int),
+        (final(self).consumer.log().len() < old(self).consumer.log().len() + 2) ==> final(self).type_tracker == old(self).type_tracker,""")
     g.contract_clauses += 4
     pp.add_loop_contract(1, """            invariant
                 self.decoder.offset <= self.decoder.bytes@.len(),
@@ -180,7 +197,9 @@ def build(tier="quick", must_fail=False):
                 ({ let l = self.consumer.log(); let n = old(self).consumer.log().len() as int;
                    l[n] is Init && l[n + 1] is Header
                    && (forall|i: int| n + 2 <= i < l.len() ==> #[trigger] l[i] is Inst)
-                   && (forall|i: int| n <= i < l.len() ==> #[trigger] answer(l[i]) is Continue) }),
+                   && (forall|i: int| n <= i < l.len() ==> #[trigger] answer(l[i]) is Continue)
+                   && self.type_tracker.tracked().len() == old(self).type_tracker.tracked().len() + (l.len() - n - 2)
+                   && tracked_all(old(self).type_tracker.tracked(), self.type_tracker.tracked(), l, n) }),
             decreases self.decoder.bytes@.len() - self.decoder.offset,""")
     g.emit(pp, name="binary::parser::Parser::parse")
     g.raw("}")
